@@ -1102,3 +1102,58 @@ DECLARE_NOT_MODEL = {
     "add_partition_constraints": "orthogonality generator (R-ORTHO)", "add_point": "oracle registration (R-ADDPOINT)",
     "set_initial_point": "creates and returns a new leaf (R-NEWOBJ)",
 }
+
+
+# ---------------------------------------------------------------------------------------------------
+# R-REGISTRY: the registries the solve root walks are only filled by constructors and emptied by the reset
+# ---------------------------------------------------------------------------------------------------
+def r_registry(ctx):
+    """Function.list_of_functions, BlockPartition.list_of_partitions and the two leaf registries are how declared objects (a composite, the adjoint
+    of a linear operator, a partition built directly) reach the solver and get their values.  Each is written in exactly two ways: `append(self)` in
+    the constructor of its class, and a rebinding to an empty list in the reset routine.  Anything else (remove, pop, del, slice assignment,
+    rebinding elsewhere) makes a declared object invisible to the solve root."""
+    from ..model import ClassInfo
+    repo = ctx.repo
+    n = 0
+    bad = []
+    for fn in repo.all_functions():
+        for node in ast.walk(fn):
+            tgt = None
+            what = None
+            if isinstance(node, ast.Call) and isinstance(node.func, ast.Attribute) and isinstance(node.func.value, ast.Attribute) \
+                    and isinstance(node.func.value.value, ast.Name) and node.func.value.attr.startswith("list_of"):
+                tgt, what = node.func.value, node.func.attr
+            elif isinstance(node, (ast.Assign, ast.AugAssign, ast.Delete)):
+                tl = node.targets if isinstance(node, (ast.Assign, ast.Delete)) else [node.target]
+                for t in tl:
+                    base = t.value if isinstance(t, ast.Subscript) else t
+                    if isinstance(base, ast.Attribute) and isinstance(base.value, ast.Name) and base.attr.startswith("list_of"):
+                        tgt, what = base, ("del" if isinstance(node, ast.Delete) else ("item/slice store" if isinstance(t, ast.Subscript) else "rebind"))
+            if tgt is None:
+                continue
+            owner = repo.resolve_name(fn._module, tgt.value.id)
+            if not isinstance(owner, ClassInfo) or tgt.attr not in owner.class_attrs:
+                continue
+            if what in ("index", "count", "copy"):
+                continue
+            n += 1
+            cls = getattr(fn, "_cls", None)
+            ok = False
+            if what == "append" and fn.name == "__init__" and cls is owner and len(node.args) == 1 and dotted(node.args[0]) == "self":
+                ok = True
+            elif what == "rebind" and isinstance(node, ast.Assign) and _empty_list(node.value) and cls is not None and cls.name == "PEP":
+                ok = True
+            if not ok:
+                bad.append((fn, node, "%s.%s" % (owner.name, tgt.attr), what))
+    for fn, node, reg, what in bad:
+        ctx.ob("R-REGISTRY", "%s::%s %s" % (qualname(fn), what, reg), False,
+               "`%s` edits the registry %s outside its constructor / the reset: objects taken out of it (or never put in) are skipped by the solve root -- "
+               "their constraints are not sent, their values not assigned" % (norm_stmt(common.stmt_of(node))[:70], reg), loc(fn, node))
+    ctx.ob("R-REGISTRY", "class-level registries", not bad, "registries are only appended to by constructors and emptied by the reset (%d writes)" % n if not bad else
+           "%d write(s) reported above" % len(bad), "PEPit/")
+    ctx.count("registry writes", n)
+    return n
+
+
+def _empty_list(v):
+    return (isinstance(v, ast.List) and not v.elts) or (isinstance(v, ast.Call) and isinstance(v.func, ast.Name) and v.func.id == "list" and not v.args)
